@@ -20,6 +20,9 @@ directed = st.one_of(
     st.tuples(st.just(corrupt.CLASSES.index('gd')), st.integers(0, 500), st.sampled_from(_ptr_idx(corrupt.GD_FIELDS)), st.sampled_from(_DIR_KINDS), _VALS, st.just(True)),
     st.tuples(st.sampled_from(_PTR_CLASSES), st.integers(0, 500), st.integers(0, 200), st.sampled_from(_DIR_KINDS), _VALS, st.just(True)),
     # unreachable-but-locally-consistent structures: a directory cut off from its parent, alone or in a loop with one of its subdirectories
+    # exactly one stale checksum, nothing else wrong: a benign field (times, owner, generation-free fields) or the checksum field itself of one inode / descriptor is flipped without fix-up
+    st.tuples(st.just(corrupt.CLASSES.index('inode')), st.integers(0, 500), st.sampled_from([i for i, f in enumerate(corrupt.INO_FIELDS) if f[0] in ('atime', 'ctime', 'mtime', 'uid', 'gid', 'csum_lo', 'csum_hi')]),
+              st.just(corrupt.KINDS.index('bitflip')), st.integers(0, 31), st.just(False)),
     # a directory that loses its first (often only) block
     st.tuples(st.just(corrupt.CLASSES.index('dirmap')), st.integers(0, 500), st.integers(0, 6), st.sampled_from(_DIR_KINDS), _VALS, st.just(True)),
     st.tuples(st.just(corrupt.CLASSES.index('eadup')), st.integers(0, 500), st.integers(0, 1), st.just(0), st.integers(0, 500), st.just(True)),
